@@ -7,7 +7,8 @@ LEVEL = ("Mechanism level: each of the four append sites adds exactly one value 
          "state; Stream::add_value always ends in the size check whose error edge is taken iff prev+cur+new >= 1024; "
          "the recursive cursor is refreshed from stream.cursor() on every path of both cursor methods and the fold loop "
          "re-assigns its state from met_iteration_end each round; catchable errors inside stream-fold iterations are "
-         "swallowed, others propagated. The multiset statement itself is not decided.")
+         "swallowed, others propagated. The multiset statement itself is not decided."
+         " Added: cursor/slice agreement (generations_count counts every generation, slice_iter skips before filtering), scoped-lookup sibling rule (find_closest / find_closest_mut), scheme hand-over and position-map tables, fold-lore phases, R-SIDES.")
 
 
 def check(ctx):
